@@ -41,6 +41,9 @@ def gen_init(rng, lo=4, hi=12):
         if len(set(y)) == 1:
             y[0] += 1
     int_x = rng.random() < 0.12 and all(v.denominator == 1 for v in x)
+    if not int_y and m >= 4 and rng.random() < 0.06:
+        # one reading many orders of magnitude above the rest, early in the series (a fill value, a burst)
+        y[rng.choice([0, 1])] = Fraction(rng.choice([6 * 10 ** 17, 3 * 10 ** 18, -2 * 10 ** 17]))
     return {"x": [str(v) for v in x], "y": [str(v) for v in y],
             "as_list": rng.random() < 0.25, "int_x": int_x, "int_y": int_y, "x_none": rng.random() < 0.05,
             # the application treats warnings as errors (python -W error, pytest filterwarnings=error)
@@ -99,8 +102,11 @@ def gen_reshape_op(rng, allow=RESHAPE):
                 d["smooth"] = rng.choice([1, 1, 2])
         return d
     if k == "match":
-        return {"op": k, "target": rng.choice(["trapezoid", "rectangle"]), "ref": rng.choice(["trapezoid", "rectangle"]),
-                "alpha": rng.choice([1, 2, 3]), "strategy": rng.choice(["closest", "closest", "lower", "higher"])}
+        d = {"op": k, "target": rng.choice(["trapezoid", "rectangle"]), "ref": rng.choice(["trapezoid", "rectangle"]),
+             "alpha": rng.choice([1, 2, 3]), "strategy": rng.choice(["closest", "closest", "lower", "higher"])}
+        if rng.random() < 0.2:
+            d["fp_kind"] = "sorted_repeat"
+        return d
     if k == "interp":
         d = {"op": k, "method": rng.choice(["linear", "constant", "cubic", "spline"])}
         if rng.random() < 0.5:
@@ -433,6 +439,9 @@ def apply_op(w, op, rng_state=None):
         w.recreate_from_average(n, rfa_class=cls, **kw)
         return f"wop recreateext {n} {fmt_list([frac(v) for v in w.y])}"
     if k == "match":
+        if op.get("fp_kind") == "sorted_repeat" and "fpi" not in op and len(x) >= 7:
+            n_ = len(x)
+            op["fpi"] = [0, 0, n_ - 1, n_ - 1]       # in increasing order, both fixed points named twice
         fpx = op.get("fpx")
         fpi = op.get("fpi")
         line = (f"wop match {op['alpha']} {fmt_opt(None if fpx is None else [Fraction(v) for v in fpx])} "
